@@ -54,6 +54,10 @@ func checkC01(c *Ctx) {
 	c.Decides("MUST-EOT (go/cfg): the Newick Parse function reports success only after testing the token that follows the tree against EOT")
 	c.mustSeeEOT("MUST-EOT", c.Func("io/newick", "Parser", "Parse"), "reading back gives the same tree")
 	c.Floor("MUST-EOT", 1)
+	c.Decides("RUNE-NARROW: the Newick lexer and parser never narrow a rune to a byte on its way into a token")
+	if sites, _ := c.runeNarrow("RUNE-NARROW", c.AllFuncs("io/newick"), "the same tip and internal-node names"); sites > 0 {
+		c.Trivial("RUNE-NARROW", "scan", 0, fmt.Sprintf("%d functions of io/newick scanned", sites))
+	}
 	c.Decides("TRIM-WS: the Newick reader (package io/newick) removes nothing but white space from the texts it reads: every strings.Trim*/Replace* call there is TrimSpace or has a constant white-space cut set")
 	if nt, _ := c.trimWhiteSpaceOnly("TRIM-WS", c.AllFuncs("io/newick"), "the same tip and internal-node names"); nt == 0 {
 		c.Undecided("TRIM-WS", "scan", token.NoPos, "no trimming call seen in io/newick (the TrimSpace of tip names was the instance confirmed by hand)")
